@@ -132,6 +132,7 @@ def install(ctx, repo, probes):
     probes.wrap(TP, "__sub__", post, pre)
     ctx.target("borrow", "far", "across-year-1", "mixed-representation",
                "mixed-offset", "24:00-operand", "regime/exact",
+               "addsub/zone-typed-duration",
                "regime/tolerance")
 
     def post_range(snap, args, kwargs, res, exc):
@@ -190,6 +191,14 @@ def run_case(ctx, repo, case):
                                       R.dur_key(d1), R.tp_key(r), mode))
         else:
             p, d = repo.tp(case["p"]), repo.dur(case["d"])
+            if case.get("as_zone"):
+                # the same exact duration as a TimeZone object (a Duration
+                # subclass), possibly carrying days from arithmetic
+                h, m = case["as_zone"]
+                d = repo.TimeZone(hours=h, minutes=m)
+                if case["d"].get("days"):
+                    d = d + repo.Duration(days=case["d"]["days"])
+                ctx.cls("addsub/zone-typed-duration")
             q = p + d
             diff = q - p
             ctx.ev("identity.addsub")
@@ -236,6 +245,22 @@ def workload(ctx, repo):
                 ctx.case = case
                 ctx.ev("cases.offset-grid")
                 run_case(ctx, repo, case)
+    for k in range(60):
+        if not ctx.mine(k):
+            continue
+        mode = R.MODES[k % 4]
+        h, m = gen.OFFSET_GRID[k % len(gen.OFFSET_GRID)]
+        if abs(h) > 50:
+            h, m = 5, 30
+        days = (0, 2, -3)[k % 3]
+        case = {"op": "addsub", "mode": mode,
+                "p": gen.rand_tp(rng, mode, form="hms", integral=True),
+                "d": {"days": days, "hours": h, "minutes": m},
+                "as_zone": [h, m]}
+        if case["p"].get("hour_of_day") == 24:
+            continue
+        ctx.case = case
+        run_case(ctx, repo, case)
     # the same local day and hour in two precision forms (hh:mm:ss against
     # decimal hours / decimal minutes in quarter units), minutes apart
     for k in range(400 if ctx.tier == "quick" else 1600):
